@@ -52,6 +52,20 @@ deliver every command that the complete listing shows both before and after the 
 question (a refresh in one thread while another thread queries the cache, all interleavings with a
 bounded number of preemptions) is xv/c08_sched.py, run after the BFS (`sched:...` keys).
 
+The ORDER of the probes matters (a view that refreshes the shared table masks a view that forgot to):
+the completion listing (the real complete_command generator, empty prefix, view `completion-listing`)
+is always the first view probed on a state, and in the "+completion" phases it is also the one
+lookup every state gets instead of `'x' in cache`, so that between two completion listings nothing
+else touches the cache.  time.monotonic as seen by xonsh.completers.commands / xonsh.commands_cache
+(module-level `time` / `monotonic` names) is virtual: frozen inside a history, +10 s per new history.
+A completion-listing mismatch is reported only where it differs from what iteration of the cache
+answers on the same state (otherwise it is the cache-iter finding).
+
+`backdated(<create exe | delete>)` changes a $PATH directory's content and leaves it with an OLDER
+mtime than any seen before (restore preserving directory times, rollback by rename, clock stepped
+back); the two-rename swap with a prepared sibling is not modelled separately (same observable:
+other content, older mtime, at the same path).
+
 Only mismatches that are NEW on a state (not already present, identically, on the state before the
 event) are reported, and a mismatch of a cache view is classified by REPAIR TRANSFORMS, so that
 keys name root causes and not inputs:
@@ -1097,6 +1111,7 @@ class Harness:
             self._count_scan(self.scan_fired - f0)
         elif ev[0] == "scan-fault":
             self._count_scan(self.fault_fired - g0, fault=True)
+        post = self.mismatches()  # first: nothing else may refresh the table before the first view is probed
         viols = self._iter_finish(its)
         envp = [self.rel(x) for x in self.xsh.env["PATH"]]
         if envp != self.m_path:
@@ -1109,7 +1124,6 @@ class Harness:
                     "expected": list(self.m_path),
                 }
             )
-        post = self.mismatches()
         new = {k: v for k, v in post.items() if pre.get(k) != v["sig"]}
         if new:
             stash = self.canon()
